@@ -23,23 +23,54 @@ type libShape struct {
 // buildLib constructs the geometry-level and object-level library values.
 // closed selects whether polygon rings repeat their closing vertex.
 func buildLib(s *exact.Shape, ic IdxCfg, closed bool) libShape {
+	return buildLibScaled(s, ic, closed, 1)
+}
+
+// buildLibScaled multiplies every coordinate by sc, a power of two: the
+// scaled coordinates are exactly representable and every product and
+// quotient the library forms scales exactly, so all answers must be the same
+// as at scale 1 (and the exact oracle, evaluated on the unscaled shape, still
+// applies).  This reaches coordinates such as 2 + 2^-17 that the oracle's
+// 1/16 lattice cannot hold.
+func buildLibScaled(s *exact.Shape, ic IdxCfg, closed bool, sc float64) libShape {
 	l := libShape{src: s, ic: ic, clos: closed}
+	sp := func(p exact.P) geometry.Point {
+		q := gpt(p)
+		return geometry.Point{X: q.X * sc, Y: q.Y * sc}
+	}
+	sps := func(ps []exact.P, cl bool) []geometry.Point {
+		out := make([]geometry.Point, 0, len(ps)+1)
+		for _, p := range ps {
+			out = append(out, sp(p))
+		}
+		if cl && len(ps) > 0 {
+			out = append(out, sp(ps[0]))
+		}
+		return out
+	}
 	switch s.Kind {
 	case exact.KPoint:
-		p := gpt(s.Pts[0])
+		p := sp(s.Pts[0])
 		l.g, l.obj = p, geojson.NewPoint(p)
 	case exact.KRect:
-		r := mkRect(s.Pts[0], s.Pts[1])
+		r := geometry.Rect{Min: sp(s.Pts[0]), Max: sp(s.Pts[1])}
 		l.g, l.obj = r, geojson.NewRect(r)
 	case exact.KLine:
-		ln := mkLine(s.Pts, ic)
+		ln := geometry.NewLine(sps(s.Pts, false), ic.Opts())
 		l.g, l.obj = ln, geojson.NewLineString(ln)
 	default:
-		p := mkPoly(s.Ext, s.Holes, closed, ic)
+		var hs [][]geometry.Point
+		for _, h := range s.Holes {
+			hs = append(hs, sps(h, closed))
+		}
+		p := geometry.NewPoly(sps(s.Ext, closed), hs, ic.Opts())
 		l.g, l.obj = p, geojson.NewPolygon(p)
 	}
 	return l
 }
+
+// scales used by the scaled variants (all powers of two)
+var libScales = []float64{1.0 / (1 << 17), 1.0 / (1 << 24), 1.0 / (1 << 30), 1 << 12}
 
 func gIntersects(a, b libShape) bool {
 	switch v := b.g.(type) {
@@ -258,9 +289,15 @@ type attribution struct {
 	Events      int          `json:"leaf_events"`
 }
 
-func attribute(events []*geometry.VerifEvent) attribution {
+func attribute(events []*geometry.VerifEvent) attribution { return attributeScaled(events, 1) }
+
+// attributeScaled judges leaf events recorded from shapes built at scale sc.
+func attributeScaled(events []*geometry.VerifEvent, sc float64) attribution {
 	at := attribution{Events: len(events)}
 	for _, e := range events {
+		if sc != 1 {
+			e = descale(e, 1/sc)
+		}
 		le := judgeLeaf(e)
 		if le.Judged && le.Got != le.Want {
 			at.Disagreeing = append(at.Disagreeing, le)
@@ -353,3 +390,29 @@ func entryGuess(at attribution) string {
 }
 
 func jsonUnmarshal(b []byte, v interface{}) error { return json.Unmarshal(b, v) }
+
+// descale returns a copy of the event with all coordinates multiplied by inv.
+func descale(e *geometry.VerifEvent, inv float64) *geometry.VerifEvent {
+	c := *e
+	mp := func(p geometry.Point) geometry.Point { return geometry.Point{X: p.X * inv, Y: p.Y * inv} }
+	c.Seg = geometry.Segment{A: mp(e.Seg.A), B: mp(e.Seg.B)}
+	ser := func(s geometry.Series) []geometry.Point {
+		n := s.NumPoints()
+		ps := make([]geometry.Point, n)
+		for i := 0; i < n; i++ {
+			ps[i] = mp(s.PointAt(i))
+		}
+		return ps
+	}
+	if e.Ring != nil {
+		// rebuilt as a closed series without index; only its points are read by the leaf oracle
+		c.Ring = geometry.NewPoly(ser(e.Ring), nil, &geometry.IndexOptions{}).Exterior
+	}
+	if e.Line != nil {
+		c.Line = geometry.NewLine(ser(e.Line), &geometry.IndexOptions{})
+	}
+	if e.Other != nil {
+		c.Other = geometry.NewLine(ser(e.Other), &geometry.IndexOptions{})
+	}
+	return &c
+}
